@@ -750,6 +750,13 @@ def enum_case(cid, rng, nvals):
             v["cls"] = "name:%s:%s" % (form, casing)
             v["trivial"] = False
             v["transparent_pointer_arg"] = False
+        elif d == "Debug" and r < 0.9:
+            # derive(Debug): a unit variant without an attribute next to attributed ones prints its name (as std's derive does)
+            shape = Shape("unit", [])
+            v.update(shape=shape, kind="unit", ref="%s.to_string()" % rs_str(vname), casing=None, want=vname)
+            v["cls"] = "name:debug-unit-next-to-attributed"
+            v["trivial"] = False
+            v["transparent_pointer_arg"] = False
         else:
             shape = Shape("unit", [])
             at = gen_attr(rng, shape, allow_self=False, helper_ok=False, derive_suffix=suf)
